@@ -263,6 +263,26 @@ func (r *rng) grammarStringL(nearLimits bool) string {
 
 var mutBytes = []byte("+-.eE0123456789 nNaAsSiIfFtTyY_xX\x00\x80\xff")
 
+// a byte one bit-operation away from a byte of the grammar's alphabet (case folding by |0x20, &^0x20, +-0x20,
+// a stray high bit): control bytes 0x10..0x19, VT, CR, SO, 'P'..'Y', 0xB0..0xB9, ...
+func (r *rng) nearGrammarByte() byte {
+	g := "+-.0123456789eEnNaAsSiIfFtTyY"[r.intn(29)]
+	switch r.intn(6) {
+	case 0:
+		return g ^ 0x20
+	case 1:
+		return g &^ 0x20
+	case 2:
+		return g - 0x20
+	case 3:
+		return g | 0x80
+	case 4:
+		return g ^ 0x40
+	default:
+		return g + 0x20
+	}
+}
+
 func (r *rng) mutate(s string) string {
 	b := []byte(s)
 	if r.coin(12) {
@@ -280,6 +300,9 @@ func (r *rng) mutate(s string) string {
 	case 0: // insert
 		i := r.intn(len(b) + 1)
 		ins := []byte{mutBytes[r.intn(len(mutBytes))]}
+		if r.coin(20) {
+			ins = []byte{r.nearGrammarByte()}
+		}
 		if r.coin(5) {
 			ins = []byte("İ") // lower-cases to ASCII i under strings.ToLower
 		}
@@ -295,6 +318,9 @@ func (r *rng) mutate(s string) string {
 	case 2: // replace
 		if len(b) > 0 {
 			b[r.intn(len(b))] = mutBytes[r.intn(len(mutBytes))]
+			if r.coin(20) {
+				b[r.intn(len(b))] = r.nearGrammarByte()
+			}
 		}
 	default: // duplicate a piece
 		if len(b) > 0 {
